@@ -717,7 +717,8 @@ theorem hProcess_main (rev : HRow) (d : Buckets HRow) (multi multiAll : Bool) (c
     (hR : ∀ r ∈ d.removed, hParseVlancfg r = .ok (p, vl r))
     (hc2 : multi = false → d.added.length ≤ 1 ∧ d.removed.length ≤ 1)
     (hns : ¬ (d.removed ≠ [] ∧ d.added = [] ∧
-      ((multi = true ∧ multiAll = true ∧ d.unchanged = []) ∨ (multi = false ∧ multiAll = false))))
+      ((multi = true ∧ multiAll = true ∧ d.unchanged = []) ∨
+       (multi = false ∧ multiAll = false ∧ d.unchanged = []))))
     (hchunk : multi = true → 0 < chunk)
     (hdp : dev.pfx = p) (hp : p.head? ≠ some (.w "undo"))
     (hclr : ∀ t, t ≠ [] → (∀ x ∈ t, x.isNumTo = true) →
@@ -758,12 +759,13 @@ theorem hProcess_main (rev : HRow) (d : Buckets HRow) (multi multiAll : Bool) (c
       simp only [Bool.and_eq_true, Bool.not_eq_true', List.isEmpty_iff] at h
       obtain ⟨⟨⟨⟨a, b⟩, c⟩, e⟩, f⟩ := h
       exact hns ⟨by simpa [List.isEmpty_iff] using a, b, .inl ⟨c, e, f⟩⟩
-    have g4 : (!d.removed.isEmpty && d.added.isEmpty && !(multi && multiAll) && !multi && !multiAll) = false := by
+    have g4 : (!d.removed.isEmpty && d.added.isEmpty && !(multi && multiAll) && !multi && !multiAll
+        && d.unchanged.isEmpty) = false := by
       apply Bool.eq_false_iff.mpr
       intro h
       simp only [Bool.and_eq_true, Bool.not_eq_true', List.isEmpty_iff] at h
-      obtain ⟨⟨⟨⟨a, b⟩, _⟩, e⟩, f⟩ := h
-      exact hns ⟨by simpa [List.isEmpty_iff] using a, b, .inr ⟨e, f⟩⟩
+      obtain ⟨⟨⟨⟨⟨a, b⟩, _⟩, e⟩, f⟩, g⟩ := h
+      exact hns ⟨by simpa [List.isEmpty_iff] using a, b, .inr ⟨e, f, g⟩⟩
     simp only [g1, g2, g3, g4, Bool.false_eq_true, if_false, hpa, hpd, except_bind_ok, e1, e2, except_pure]
   · intro c hc
     simp only [List.map_append, List.mem_append, List.mem_map] at hc
@@ -788,17 +790,28 @@ theorem hProcess_all (rev : HRow) (d : Buckets HRow) (chunk : Nat) (haff : d.aff
   simp [hProcess, haff, hA, hU, hRe]
 
 theorem hProcess_single_clear (rev : HRow) (d : Buckets HRow) (chunk : Nat) (haff : d.affected = [])
-    (hR : d.removed ≠ []) (hA : d.added = []) (hlen : d.removed.length ≤ 1) :
+    (hR : d.removed ≠ []) (hA : d.added = []) (hU : d.unchanged = []) (hlen : d.removed.length ≤ 1) :
     hProcess rev d false false chunk = .ok [⟨false, rev, none⟩] := by
   have hRe := isEmpty_false_of_ne hR
   have g : ¬ (1 < d.removed.length) := by omega
-  simp [hProcess, haff, hA, hRe, g]
+  simp [hProcess, haff, hA, hU, hRe, g]
+
+/-- `single` with more than one changed line on a side: the assertion of lines 54-56
+("Too many actions") fails, whatever the rows are -/
+theorem hProcess_single_refuses (rev : HRow) (d : Buckets HRow) (chunk : Nat) (haff : d.affected = [])
+    (hlen : 1 < d.removed.length ∨ 1 < d.added.length) :
+    hProcess rev d false false chunk = .error .assertion := by
+  have g : (decide (d.added.length > 1) || decide (d.removed.length > 1)) = true := by
+    rcases hlen with h | h <;> simp [h]
+  simp only [hProcess, haff, List.isEmpty_nil, Bool.not_true, Bool.false_eq_true, if_false, Bool.not_false,
+    Bool.true_and, g, if_true]
 
 theorem huawei_core (m : HMode) (p rev : HRow) (old new : List HRow) (vl : HRow → List Nat)
     (hp : p.head? ≠ some (.w "undo"))
     (hparse : ∀ r, r ∈ old ∨ r ∈ new → hParseVlancfg r = .ok (p, vl r))
     (hold : Disj vl old) (hnew : Disj vl new)
-    (hsingle : m = .single → old.length ≤ 1 ∧ new.length ≤ 1)
+    (hsingle : m = .single →
+      (leafBuckets old new).removed.length ≤ 1 ∧ (leafBuckets old new).added.length ≤ 1)
     (hrevAll : m = .multiAll → rev = .w "undo" :: p)
     (hrevSingle : m = .single → ∀ t, rev ≠ p ++ t ∧ rev ≠ .w "undo" :: (p ++ t)) :
     ∃ ys, hLeaf m rev old new = .ok ys ∧
@@ -808,15 +821,13 @@ theorem huawei_core (m : HMode) (p rev : HRow) (old new : List HRow) (vl : HRow 
   -- the buckets
   have hRm : ∀ r, r ∈ (leafBuckets old new).removed ↔ r ∈ old ∧ r ∉ new := fun r => mem_filter_notin old new r
   have hAm : ∀ r, r ∈ (leafBuckets old new).added ↔ r ∈ new ∧ r ∉ old := fun r => mem_filter_notin new old r
-  have hlenA : (leafBuckets old new).added.length ≤ new.length := List.length_filter_le _ _
-  have hlenR : (leafBuckets old new).removed.length ≤ old.length := List.length_filter_le _ _
   by_cases short : (leafBuckets old new).removed ≠ [] ∧ (leafBuckets old new).added = [] ∧
-      ((m = .multiAll ∧ (leafBuckets old new).unchanged = []) ∨ m = .single)
-  · obtain ⟨hR, hA, hm⟩ := short
+      (leafBuckets old new).unchanged = [] ∧ (m = .multiAll ∨ m = .single)
+  · obtain ⟨hR, hA, hU, hm⟩ := short
     have hRe := isEmpty_false_of_ne hR
-    rcases hm with ⟨rfl, hU⟩ | rfl
+    have hnew0 : new = [] := filter_split_nil new old hA hU
+    rcases hm with rfl | rfl
     · -- undo … all
-      have hnew0 : new = [] := filter_split_nil new old hA hU
       refine ⟨[⟨false, rev ++ [.w "all"], none⟩], ?_, ?_⟩
       · simp only [hLeaf, hLogic]
         exact hProcess_all rev (leafBuckets old new) 10 rfl hR hA hU
@@ -824,25 +835,10 @@ theorem huawei_core (m : HMode) (p rev : HRow) (old new : List HRow) (vl : HRow 
           rw [hrevAll rfl]; simp [interpH, hDevice]
         simpa using clear_exact (interpH (hDevice .multiAll p rev)) (rev ++ [.w "all"]) hc (setOf vl old)
           (setOf vl new) (by rw [hnew0]; rfl)
-    · -- undo <key>
-      obtain ⟨ho, hn⟩ := hsingle rfl
-      have hnew0 : new = [] := by
-        obtain ⟨r, hr⟩ := List.exists_mem_of_ne_nil _ hR
-        obtain ⟨hro, hrn⟩ := (hRm r).mp hr
-        apply List.eq_nil_iff_forall_not_mem.mpr
-        intro x hx
-        have hxo : x ∈ old := by
-          by_cases h : x ∈ old
-          · exact h
-          · have : x ∈ (leafBuckets old new).added := (hAm x).mpr ⟨hx, h⟩
-            rw [hA] at this; simp at this
-        have : x = r := by
-          match old, ho, hro, hxo with
-          | [a], _, h1, h2 => simp at h1 h2; rw [h1, h2]
-        exact hrn (this ▸ hx)
+    · -- undo <key>: the only line of the key goes away and nothing of the key stays
       refine ⟨[⟨false, rev, none⟩], ?_, ?_⟩
       · simp only [hLeaf, hLogic]
-        exact hProcess_single_clear rev (leafBuckets old new) 0 rfl hR hA (by omega)
+        exact hProcess_single_clear rev (leafBuckets old new) 0 rfl hR hA hU (hsingle rfl).1
       · have hc : interpH (hDevice .single p rev) rev = some .clear := by simp [interpH, hDevice]
         simpa using clear_exact (interpH (hDevice .single p rev)) rev hc (setOf vl old) (setOf vl new)
           (by rw [hnew0]; rfl)
@@ -855,11 +851,11 @@ theorem huawei_core (m : HMode) (p rev : HRow) (old new : List HRow) (vl : HRow 
       (fun r hr => hparse r (.inr ((hAm r).mp hr).1)) (fun r hr => hparse r (.inl ((hRm r).mp hr).1))
       (fun h => by
         have : m = .single := by cases m <;> simp_all
-        obtain ⟨ho, hn⟩ := hsingle this; omega)
+        obtain ⟨ho, hn⟩ := hsingle this; exact ⟨hn, ho⟩)
       (fun ⟨h1, h2, h3⟩ => short ⟨h1, h2, by
-        rcases h3 with ⟨a, b, c⟩ | ⟨a, b⟩
-        · left; cases m <;> simp_all
-        · right; cases m <;> simp_all⟩)
+        rcases h3 with ⟨a, b, c⟩ | ⟨a, b, c⟩
+        · exact ⟨c, by left; cases m <;> simp_all⟩
+        · exact ⟨c, by right; cases m <;> simp_all⟩⟩)
       (fun h => by cases m <;> simp_all) rfl hp
       (fun t hne hnt => by
         cases m with
@@ -881,6 +877,57 @@ theorem huawei_core (m : HMode) (p rev : HRow) (old new : List HRow) (vl : HRow 
     · cases m <;> simpa [hLeaf, hLogic] using hys
     · exact run_exact (interpH (hDevice m p rev)) (ys.map (·.row)) (setOf vl old) (setOf vl new) _ _ hcl hR hA
         (fun v => diff_rows vl old new hold v) (fun v => diff_rows vl new old hnew v)
+
+/-- `single` refuses (AssertionError "Too many actions", nothing is emitted) as soon as more than
+one line of the key changed on one side — whatever the lines are -/
+theorem huawei_single_refuses (rev : HRow) (old new : List HRow)
+    (hlen : 1 < (leafBuckets old new).removed.length ∨ 1 < (leafBuckets old new).added.length) :
+    hLeaf .single rev old new = .error .assertion := by
+  simp only [hLeaf, hLogic]
+  exact hProcess_single_refuses rev (leafBuckets old new) 0 rfl hlen
+
+/-- all three modes, any number of lines: either the emitted commands are exact (in every order)
+and never drop a common VLAN, or the mode is `single`, more than one line of the key changed on
+one side and the logic raised its own AssertionError (no command at all) -/
+theorem huawei_total (m : HMode) (p rev : HRow) (old new : List HRow) (vl : HRow → List Nat)
+    (hp : p.head? ≠ some (.w "undo"))
+    (hparse : ∀ r, r ∈ old ∨ r ∈ new → hParseVlancfg r = .ok (p, vl r))
+    (hold : Disj vl old) (hnew : Disj vl new)
+    (hrevAll : m = .multiAll → rev = .w "undo" :: p)
+    (hrevSingle : m = .single → ∀ t, rev ≠ p ++ t ∧ rev ≠ .w "undo" :: (p ++ t)) :
+    (∃ ys, hLeaf m rev old new = .ok ys ∧
+      ∀ cs, cs.Perm (ys.map (·.row)) →
+        EndsIn (interpH (hDevice m p rev)) cs (setOf vl old) (setOf vl new) ∧
+        KeepsCommon (interpH (hDevice m p rev)) cs (setOf vl old) (setOf vl new)) ∨
+    (m = .single ∧
+      (1 < (leafBuckets old new).removed.length ∨ 1 < (leafBuckets old new).added.length) ∧
+      hLeaf m rev old new = .error .assertion) := by
+  by_cases hs : m = .single ∧
+      (1 < (leafBuckets old new).removed.length ∨ 1 < (leafBuckets old new).added.length)
+  · obtain ⟨rfl, hlen⟩ := hs
+    exact .inr ⟨rfl, hlen, huawei_single_refuses rev old new hlen⟩
+  · exact .inl (huawei_core m p rev old new vl hp hparse hold hnew
+      (fun h => by
+        constructor
+        · exact Nat.le_of_not_lt fun h' => hs ⟨h, .inl h'⟩
+        · exact Nat.le_of_not_lt fun h' => hs ⟨h, .inr h'⟩)
+      hrevAll hrevSingle)
+
+/-- whatever the logic returns without raising is exact and keeps the common VLANs -/
+theorem huawei_sound (m : HMode) (p rev : HRow) (old new : List HRow) (vl : HRow → List Nat)
+    (hp : p.head? ≠ some (.w "undo"))
+    (hparse : ∀ r, r ∈ old ∨ r ∈ new → hParseVlancfg r = .ok (p, vl r))
+    (hold : Disj vl old) (hnew : Disj vl new)
+    (hrevAll : m = .multiAll → rev = .w "undo" :: p)
+    (hrevSingle : m = .single → ∀ t, rev ≠ p ++ t ∧ rev ≠ .w "undo" :: (p ++ t))
+    (ys : List (Yield HRow Unit)) (hys : hLeaf m rev old new = .ok ys) :
+    ∀ cs, cs.Perm (ys.map (·.row)) →
+      EndsIn (interpH (hDevice m p rev)) cs (setOf vl old) (setOf vl new) ∧
+      KeepsCommon (interpH (hDevice m p rev)) cs (setOf vl old) (setOf vl new) := by
+  rcases huawei_total m p rev old new vl hp hparse hold hnew hrevAll hrevSingle with
+    ⟨ys', h1, h2⟩ | ⟨_, _, he⟩
+  · rw [h1] at hys; cases hys; exact h2
+  · rw [he] at hys; cases hys
 
 
 /-! ### Cisco -/
